@@ -23,7 +23,7 @@ from vf.refmodel import RefStorage
 
 META = {
     "category": "exploration",
-    "text": "Driver 1 enumerates, for 24 conflicting call pairs (create/create in one and in two studies, create/read incl. finished "
+    "text": "Driver 1 enumerates, for 32 call pairs (create/create in one and in two studies, create/read incl. finished "
             "and WAITING templates, same-key and different-key attribute/param/intermediate-value writes, WAITING->RUNNING claim "
             "pairs, finish/write, finish/finish, create_study same name, delete/create, writes vs readers) and for every backend "
             "layer (in-memory, journal file/redis with one or two storage objects, raw and cached SQLite with one or two objects, "
